@@ -500,6 +500,11 @@ func (c *checker) checkE2E(cs e2eCase) {
 	// Conservation: what the aggregators received, folded, is what was dispatched, folded. With more
 	// than one dispatcher the relative order of batches is free, so gauges are compared as a set.
 	opts := ref.DiffOpts{IgnoreGauge: cs.Dispatchers > 1}
+	if cs.Dispatchers > 1 {
+		// the order in which an aggregator adds up the sampled counts (1/rate) of concurrently dispatched batches
+		// is free, and floating-point addition is not associative: equal up to rounding (seen once: 1 ulp)
+		opts.SampledRel = 1e-9
+	}
 	if d := ref.Diff(got.Series, want.Series, opts); len(d) > 0 {
 		kind := firstWords(d[0], 1)
 		if strings.HasPrefix(d[0], "missing") || strings.HasPrefix(d[0], "unexpected") || strings.HasPrefix(d[0], "duplicate") {
@@ -737,7 +742,7 @@ func (c *checker) checkE2ETag(cs e2eTagCase) {
 				r.Violation("e2e-tag-series-twice-in-one-flush", fmt.Sprintf("round %d: the series %q is held under several keys of one aggregator: %s; sent under the spellings %v", ri, id, strings.Join(desc, " and "), keysOf(spellings[id])), cs)
 			}
 		}
-		d := ref.Diff(got.Series, want.Series, ref.DiffOpts{IgnoreGauge: true})
+		d := ref.Diff(got.Series, want.Series, ref.DiffOpts{IgnoreGauge: true, SampledRel: 1e-9})
 		d = append(d, want.CheckGauges(got.Series)...)
 		if len(d) > 0 {
 			kind := firstWords(d[0], 1)
